@@ -22,6 +22,20 @@ def _build(repo):
     # one target dir per repository path: artifacts of a scratch copy are never mistaken for /repo's
     tdir = os.path.join(os.environ.get("VERIF_REPLAY_TARGET", "/var/tmp/verif-replay-target"),
                         hashlib.sha1(os.path.abspath(repo).encode()).hexdigest()[:12])
+    # housekeeping: target dirs of scratch copies that no longer exist are removed (disk space)
+    troot = os.path.dirname(tdir)
+    try:
+        os.makedirs(tdir, exist_ok=True)
+        with open(os.path.join(tdir, "REPO_PATH"), "w") as f:
+            f.write(os.path.abspath(repo))
+        for d in os.listdir(troot):
+            rp = os.path.join(troot, d, "REPO_PATH")
+            if os.path.exists(rp):
+                orig = open(rp).read().strip()
+                if orig and not os.path.exists(orig):
+                    shutil.rmtree(os.path.join(troot, d), ignore_errors=True)
+    except OSError:
+        pass
     work = tempfile.mkdtemp(prefix="verif-replay-")
     try:
         shutil.copytree(crate, os.path.join(work, "replay"), ignore=shutil.ignore_patterns("target"))
